@@ -47,7 +47,7 @@ def st_rstart(draw):
 
 @st.composite
 def st_rop(draw, extra=()):
-    o = draw(st.sampled_from(['append', 'append', 'iterappend', 'trunc', 'trunc', 'mode', 'reopen', 'read', 'ctx', 'failappend', 'sibling', 'recreate', 'iterappend2d', 'fillmax'] + list(extra)))
+    o = draw(st.sampled_from(['append', 'append', 'iterappend', 'trunc', 'trunc', 'mode', 'reopen', 'read', 'ctx', 'failappend', 'sibling', 'recreate', 'iterappend2d', 'fillmax', 'iterappend-x'] + list(extra)))
     if o == 'append':
         return {'o': 'append', 'item': draw(st_item())}
     if o == 'iterappend':
@@ -79,6 +79,9 @@ def st_rop(draw, extra=()):
                 'kind': draw(st.sampled_from(['raise', 'badatom', 'unconv'])), 'gen': draw(st.booleans())}
     if o == 'fillmax':
         return {'o': 'fillmax', 'seed': draw(st.integers(0, 2 ** 31))}
+    if o == 'iterappend-x':
+        return {'o': 'iterappend-x', 'style': draw(st.sampled_from(['from-self', 'from-self', 'gen-sets-mode', 'readcode-inside', 'manyitems', 'manyitems'])),
+                'n': draw(st.sampled_from([130, 130, 300, 1100])), 'seed': draw(st.integers(0, 2 ** 31))}
     if o == 'recreate':
         return {'o': 'recreate', 'how': draw(st.sampled_from(['delete_raggedarray', 'rmtree']))}
     if o == 'iterappend2d':
@@ -266,7 +269,12 @@ class RaggedRun:
                 if state != want:
                     out.viol('state-mismatch', f'{tag}:{hn}', f'step {self.stepno}: (len,narrays,atom,dtype,size)={state} want {want}')
                     return False
-                for k in list(range(-n, n)):
+                ks = list(range(-n, n))
+                if n > 300:       # long arrays: both ends, around the 128 / 256 / 4096 marks, and a stride in between
+                    ks = sorted(set(list(range(-n, -n + 4)) + list(range(-4, 4)) + list(range(n - 4, n)) +
+                                    [k_ for c_ in (127, 128, 255, 256, 1024, 4096) for k_ in (c_ - 1, c_, -c_, -c_ - 1) if -n <= k_ < n] +
+                                    list(range(0, n, max(1, n // 60)))))
+                for k in ks:
                     try:
                         got = h[k]
                     except Exception as e:
@@ -292,7 +300,7 @@ class RaggedRun:
                             out.viol('no-raise', f'getitem:{type(k).__name__}', f'ra[{k!r}] on length {n} did not raise')
                             return False
                     if n:
-                        for k in (np.int64(n - 1), np.uint8(0), np.int16(-1)):
+                        for k in (np.int64(n - 1), np.uint8(0), np.int16(-1), np.int8(-1), np.int8(-min(n, 128)), np.int16(-min(n, 300))):
                             try:
                                 got = h[k]
                                 if got.tobytes() != m[int(k)].tobytes() or got.shape != m[int(k)].shape:
@@ -467,6 +475,65 @@ class RaggedRun:
             if not self.expect_ok(tag, lambda: ra.iterappend(it)):
                 return False
             self.m = m + mis
+            self.nmut += 1
+            return self.observe(tag)
+        if o == 'iterappend-x':
+            # unusual but legitimate item sources for ONE iterappend call:
+            #   manyitems       - n tiny subarrays (more than 127 / 255 / 1024 / 4096 of them)
+            #   from-self       - the items are computed lazily from the array's own subarrays (ra.iter_arrays() is alive meanwhile)
+            #   gen-sets-mode   - the generator switches the handle to 'r' half-way (the call was started in r+ and completes)
+            #   readcode-inside - the generator asks the handle for read code and readcodelanguages half-way
+            if self.mode == 'r' or getattr(self, 'in_ctx', False):
+                return True
+            style = op['style']
+            self.kinds.append('iterappend')
+            atom = tuple(self.atom)
+            mk = lambda k, sd: gens.build_array(self.dt, (k,) + atom, {'m': 'raw', 's': op['seed'] + sd})
+            if style == 'manyitems':
+                n_ = op['n']
+                if not self.fits(n_ + 8):
+                    n_ = max(0, min(n_, IDXMAX[self.indextype] - self.total() - 8))
+                if n_ < 3:
+                    return True
+                pool = mk(n_, 1)
+                new = [pool[i:i + (i % 2)] if i % 7 else pool[i:i + 1] for i in range(n_)]     # lengths 0 and 1
+                src = (x for x in new)
+            elif style == 'from-self':
+                if not m or not self.fits(self.total()):
+                    return True
+                new = [model_item(x, self.dt) for x in m]
+                src = (np.ascontiguousarray(x) for x in ra.iter_arrays())
+            elif style == 'gen-sets-mode':
+                new = [mk(1, 1), mk(2, 2)]
+                if not self.fits(3):
+                    return True
+
+                def src():
+                    yield new[0]
+                    ra.accessmode = 'r'
+                    yield new[1]
+                src = src()
+            else:
+                new = [mk(1, 1), mk(0, 2), mk(2, 3)]
+                if not self.fits(3):
+                    return True
+
+                def src():
+                    yield new[0]
+                    ra.readcodelanguages
+                    ra.readcode('numpymemmap')
+                    ra.readcode('matlab')
+                    yield new[1]
+                    yield new[2]
+                src = src()
+            self.out.cls('iterappend:' + style)
+            tag = f'iterappend-x:{style}'
+            ok_ = self.expect_ok(tag, lambda: ra.iterappend(src))
+            if style == 'gen-sets-mode':
+                ra.accessmode = 'r+'
+            if not ok_:
+                return False
+            self.m = m + [model_item(x, self.dt) for x in new]
             self.nmut += 1
             return self.observe(tag)
         if o == 'fillmax':
